@@ -303,7 +303,18 @@ def confirm(chk, case, known, n=3):
     return fails, lastv
 
 
+def evidence_dir():
+    """/verif/evidence for runs against /repo itself; runs against another source tree (mutants, seeded changes:
+    VERIF_REPO / VERIF_BUILD) must not overwrite the evidence of the unchanged tree"""
+    if os.environ.get("VERIF_EVIDENCE_DIR"):
+        return os.environ["VERIF_EVIDENCE_DIR"]
+    if build.REPO != "/repo" or os.environ.get("VERIF_BUILD"):
+        return os.path.join(build.BUILD, "evidence")
+    return EVID
+
+
 def write_evidence(chk, tier, seed, merged, wall, nviol, extra=None):
+    EVID = evidence_dir()
     os.makedirs(EVID, exist_ok=True)
     cov = {
         "evaluations": merged["evaluations"],
